@@ -20,7 +20,7 @@ def jobs(tier):
     shapes = [(3, (1, 2, 1), 0), (3, (2, 1, 2), 1), (2, (1, 2), 1), (2, (2, 1), 0), (1, (2,), 1), (1, (1,), 0)]
     if tier == "quick":
         shapes = shapes[:4]
-    nreqs = [1, 2, 3] if tier == "quick" else [0, 1, 2, 3, 4]
+    nreqs = [1, 2, 3] if tier == "quick" else [1, 2, 3, 4]
     for np_, nums, ng, nreq in [(a, b, c, n) for (a, b, c) in shapes for n in nreqs]:
         if nreq > np_ + ng + 1:
             continue
